@@ -3924,3 +3924,30 @@ package decimal128
 //@ call Decimal.Int64#2: T = T
 //@ ensures a == b && aok == bok
 //@ props C19
+
+// Min and Max return a value equal to the exact minimum / maximum (C04): not above / not below either operand
+// and equal to one of them in the order Cmp reports; NaN if either operand is NaN.
+//@ func verifMinMax
+//@ returns (mn, mx, a, b, c, d)
+//@ logical Vx real, Vy real
+//@ define ZZ = (!special(x) && !special(y) && coef(x) == 0 && coef(y) == 0)
+//@ define VMN = ite(ZZ, 0, ite(mn == x, Vx, Vy))
+//@ define VMX = ite(ZZ, 0, ite(mx == x, Vx, Vy))
+//@ requires !special(x) ==> Vx >= 0 && rs(Vx, bexp(x)) == coef(x)
+//@ requires !special(y) ==> Vy >= 0 && rs(Vy, bexp(y)) == coef(y)
+//@ call Min#1: Vd = Vx
+//@ call Min#1: Vo = Vy
+//@ call Max#1: Vd = Vx
+//@ call Max#1: Vo = Vy
+//@ call Decimal.Cmp#1: Vd = VMN
+//@ call Decimal.Cmp#1: Vo = Vx
+//@ call Decimal.Cmp#2: Vd = VMN
+//@ call Decimal.Cmp#2: Vo = Vy
+//@ call Decimal.Cmp#3: Vd = VMX
+//@ call Decimal.Cmp#3: Vo = Vx
+//@ call Decimal.Cmp#4: Vd = VMX
+//@ call Decimal.Cmp#4: Vo = Vy
+//@ ensures isnan(x) || isnan(y) ==> isnan(mn) && isnan(mx)
+//@ ensures !isnan(x) && !isnan(y) ==> (a == 0 - 1 || a == 0) && (b == 0 - 1 || b == 0) && (a == 0 || b == 0)
+//@ ensures !isnan(x) && !isnan(y) ==> (c == 1 || c == 0) && (d == 1 || d == 0) && (c == 0 || d == 0)
+//@ props C04
